@@ -79,13 +79,27 @@ def _types_rule(repo: Repo, T, view: FuncInfo, e: ast.expr, rule: ClassInfo) -> 
     return None
 
 
-def rule_mentions(repo: Repo, T, view: FuncInfo, rule: ClassInfo, language: set[str]) -> list[tuple[str, ast.AST]]:
+def rule_mentions(repo: Repo, T, view: FuncInfo, rule: ClassInfo, language: set[str], depth: int = 0) -> list[tuple[str, ast.AST]]:
     """Uses of the module-rule language inside the view: `<rule>.m` (called, or passed on as a bound / unbound method) and
     `getattr(<rule>, "m")`."""
     out: list[tuple[str, ast.AST]] = []
     for n in all_nodes(view):
         if isinstance(n, ast.Attribute) and isinstance(n.ctx, ast.Load) and n.attr in language and not _is_self_like(n.value):
             if _types_rule(repo, T, view, n.value, rule) is False:
+                # a same-named method of another repo class (a wrapper around the rule): what it mentions counts
+                if depth < 2:
+                    src = getattr(n, "_src", None)
+                    ctx, orig = src if src is not None else (view, n)
+                    try:
+                        t = T.expr(ctx, orig.value)
+                    except Exception:  # noqa: BLE001
+                        t = None
+                    for m_ in (members(t) if t is not None else []):
+                        ci = repo.classes.get(m_[1]) if m_[0] == "cls" else None
+                        meth = repo.lookup_method(ci, n.attr) if ci is not None else None
+                        if meth is not None and not meth.is_abstract:
+                            inner = rule_mentions(repo, T, dview(repo, meth, ci, family(repo, ci), tag="wrap"), rule, language, depth + 1)
+                            out += [(a, n) for a, _x in inner]
                 continue
             out.append((n.attr, n))
         elif isinstance(n, ast.Call) and isinstance(n.func, ast.Name) and n.func.id == "getattr" and len(n.args) >= 2 and isinstance(n.args[1], ast.Constant) and n.args[1].value in language:
